@@ -171,6 +171,24 @@ def describe(ev, rs, info):
         ev.get("elsize"), ev.get("elalign"), info[:400])
 
 
+def positional(ctx, bins):
+    """Beyond C04's statement (which is about casts): the positional constructors and destructuring forms of every
+    colour struct (`new`, `new_const`, `new_srgb*`, `from_components`, tuples, `into_components`, `with_white_point`,
+    `with_meta`) against the same declared-order table (Cast!PositionalOk, TraceCtor.tla). A departure is NOT a
+    violation of C04 as stated, so it is printed as a NOTE and recorded in the evidence, never as a VIOLATION."""
+    tp = ctx.p("ctor.ndjson")
+    run_bin(bins["cast"], ["--ctor", "--out", tp])
+    res = validate_trace(ctx, "TraceCtor", tp, stateless=True, tag="ctor")
+    notes = []
+    for (line, ev, info, _) in res.rejected:
+        why = (info or "").strip().strip('"')
+        msg = "%s %s<%s> %s: %s (arguments %s, fields %s read %s)" % (ev.get("wrap"), ev.get("base"), ev.get("k"), ev.get("form"), why,
+                                                                      ev.get("args"), ev.get("names"), ev.get("read"))
+        print("NOTE: outside C04's statement, positional construction departs from the declared order: " + msg)
+        notes.append(msg)
+    return {"events": res.events, "departures": notes[:20]}
+
+
 def run(ctx):
     bins = cargo_build(["cast"])
     ntypes = len(run_bin(bins["cast"], ["--list"]).stdout.strip().splitlines())
@@ -236,6 +254,7 @@ def run(ctx):
         for fn in os.listdir(ctx.work):
             if fn.startswith(tag + ".") and fn.endswith(".ndjson") and (".chunk" in fn or (not ctx.quick and not res.rejected)):
                 os.remove(os.path.join(ctx.work, fn))
+    ctor = positional(ctx, bins)
     if not ctx.quick and not ctx.violations:
         miri_monitor(ctx, plan[0][1])
     ctx.cov["distinct_nontrivial"] = len(nontrivial)
@@ -251,7 +270,8 @@ def run(ctx):
                   trusted=["the harness' token<->bit-pattern mapping (exact inverse, checked bit for bit) and its by-name "
                            "constructors/readers", "Vec::capacity(), as_ptr(), size_of/align_of as observations",
                            "absence of undefined behaviour as such is observed through values, addresses and layout only"],
-                  extra={"scenarios_executed": scen_total, "types": ntypes, "skipped_allocator_capacity": skipped})
+                  extra={"scenarios_executed": scen_total, "types": ntypes, "skipped_allocator_capacity": skipped,
+                         "positional_construction_outside_the_property": ctor})
 
 
 def replay(ctx, path):
